@@ -5,9 +5,9 @@ package main
 // printed fields. All queries are emptiness problems over ONE symbolic string carrying marker characters.
 
 import (
-	"go/types"
 	"encoding/json"
 	"fmt"
+	"go/types"
 	"os"
 	"path/filepath"
 	"strings"
@@ -523,10 +523,11 @@ func (ri *regexInfo) matchLang() string {
 // ---- dispatch table extracted from the code ----------------------------------------------------
 
 type dispatchCase struct {
-	prefix  string     // strings.HasPrefix(line, prefix)
-	re      *regexInfo // re.MatchString(line)
-	handler *ssa.Function
-	nested  *ssa.Function // handler computed by this function (userTypeLogAuditFn)
+	prefix    string     // strings.HasPrefix(line, prefix)
+	re        *regexInfo // re.MatchString(line)
+	handler   *ssa.Function
+	nested    *ssa.Function // handler computed by this function (userTypeLogAuditFn)
+	fromTable *ssa.Global   // the case comes from a static (pattern, handler) table
 }
 
 // extractDispatch reads the if-chain of fn: each condition is HasPrefix(x, const) or re.MatchString(x).
@@ -619,6 +620,54 @@ func (w *World) extractDispatch(fn *ssa.Function) ([]dispatchCase, string) {
 		}
 		cases = append(cases, dc)
 		b = b.Succs[1]
+	}
+	// a table-driven tail: `for … range table { if table[i].re.MatchString(x) { return table[i].fn } }` over a static
+	// table of (pattern, handler) pairs contributes its entries, in order, after the if-chain
+	for _, blk := range fn.Blocks {
+		for _, in := range blk.Instrs {
+			ld, ok := in.(*ssa.UnOp)
+			if !ok {
+				continue
+			}
+			g, ok := ld.X.(*ssa.Global)
+			if !ok {
+				continue
+			}
+			tab := w.staticTableOf(g)
+			if tab == nil {
+				continue
+			}
+			reF, fnF := -1, -1
+			for j := 0; j < tab.elem.NumFields(); j++ {
+				ft := tab.elem.Field(j).Type()
+				if strings.HasSuffix(ft.String(), "regexp.Regexp") {
+					reF = j
+				}
+				if _, ok := ft.Underlying().(*types.Signature); ok {
+					fnF = j
+				}
+			}
+			if reF < 0 || fnF < 0 {
+				continue
+			}
+			seenTab := false
+			for _, c := range cases {
+				if c.fromTable == g {
+					seenTab = true
+				}
+			}
+			if seenTab {
+				continue
+			}
+			for _, fs := range tab.fields {
+				rg, ok1 := fs[reF].(*ssa.Global)
+				hf, ok2 := fs[fnF].(*ssa.Function)
+				if !ok1 || !ok2 || w.regexGlobals[rg] == nil {
+					return cases, "table entry that is not a (pattern, handler) pair"
+				}
+				cases = append(cases, dispatchCase{re: w.regexGlobals[rg], handler: hf, fromTable: g})
+			}
+		}
 	}
 	if len(cases) == 0 {
 		return nil, "no dispatch conditions recognised"
